@@ -65,13 +65,15 @@ def build_lock():
     return f
 
 
-def build_props(race=False):
+def build_props(race=False, fuzz=False):
     """Builds the harness test binary against /repo's working tree. Returns its path."""
     os.makedirs(os.path.join(BUILD, "bin"), exist_ok=True)
-    out = os.path.join(BUILD, "bin", "props%s.%d.test" % ("-race" if race else "", os.getpid()))
+    out = os.path.join(BUILD, "bin", "props%s%s.%d.test" % ("-race" if race else "", "-fuzz" if fuzz else "", os.getpid()))
     cmd = ["go", "test", "-c", "-vet=off", "-o", out]
     if race:
         cmd.append("-race")
+    if fuzz:
+        cmd.append("-fuzz=.")  # coverage instrumentation for native fuzzing
     cmd.append("./props")
     lock = build_lock()
     try:
@@ -83,7 +85,7 @@ def build_props(race=False):
     return out
 
 
-def build_cmdmain(race=False):
+def build_cmdmain(race=False, fuzz=False):
     """Builds cmd/docker-logql's package main together with the overlaid harness tests."""
     os.makedirs(os.path.join(BUILD, "bin"), exist_ok=True)
     tag = "%d" % os.getpid()
@@ -265,7 +267,14 @@ def run_fuzz(binary, target, seconds, workdir, prop, extra_env):
     for m in re.finditer(r"execs: (\d+)", p.stdout):
         execs = max(execs, int(m.group(1)))
     crashers = []
-    if os.path.isdir(crashdir):
+    for m in re.finditer(r"VERIF-REPLAY (\S+)", p.stdout):
+        if m.group(1) not in crashers:
+            crashers.append(m.group(1))
+    if os.path.isdir(crashdir) and crashers:
+        # the fuzzer's own copy of the input is redundant with the JSON replay file
+        for name in sorted(set(os.listdir(crashdir)) - before):
+            os.remove(os.path.join(crashdir, name))
+    elif os.path.isdir(crashdir):
         for name in sorted(set(os.listdir(crashdir)) - before):
             src = os.path.join(crashdir, name)
             dstdir = os.path.join(REPLAYS, prop)
@@ -293,16 +302,16 @@ def check(prop, tier):
         # Build all binaries needed.
         bins = {}
         for st in stages:
-            key = (st.get("binary", "props"), bool(st.get("race")))
+            key = (st.get("binary", "props"), bool(st.get("race")), bool(st.get("fuzz")))
             if key not in bins:
-                bins[key] = BUILDERS[key[0]](race=key[1])
+                bins[key] = BUILDERS[key[0]](race=key[1], fuzz=key[2])
                 binaries.append(bins[key])
         stats_all = []
         violations = []
         inconclusive = []
         fuzz_execs = 0
         for st in stages:
-            binary = bins[(st.get("binary", "props"), bool(st.get("race")))]
+            binary = bins[(st.get("binary", "props"), bool(st.get("race")), bool(st.get("fuzz")))]
             if st.get("fuzz"):
                 execs, crashers, reason, out = run_fuzz(binary, st["fuzz"], st["seconds"], workdir, prop, st.get("env"))
                 fuzz_execs += execs
